@@ -167,6 +167,10 @@ func Check(c *Case, r *Result, variant string, or Oracles, fail func(what string
 			break
 		}
 		prev, st := &r.Steps[i], &r.Steps[i+1]
+		if st.Reopen != "" {
+			fail(fmt.Sprintf("class=restart-panic: the node cannot be reopened on its own database after event %d (%d events of blocks and verification messages before): %s", i, i, st.Reopen))
+			break
+		}
 		if st.Deadlock {
 			info.Deadlocked = true
 			fail(fmt.Sprintf("class=vote-deadlock: verification message %d (key %d, %d -> %d) did not return", i, e.Pub, e.Source, e.Target))
